@@ -110,79 +110,11 @@ def entry_emit_check(ctx, res, rule):
 
 
 def entry_parse_check(ctx, res, rule):
-    """decode_entry + parse_next_key parse exactly the entry row of T-format."""
+    """The block iterator parses exactly the entry row of T-format (interpretation on independently encoded blocks)."""
     prog, cg = ctx.prog, ctx.cg
-    d = prog.need("decode_entry", BL)
-    res.saw(d)
-    pn = [p["name"] for p in d.params]    # p, limit, shared, non_shared, value_length
-    ev = APE.run(prog, cg, d, bound=APE.BOUND)
-    seen_fast = seen_slow = False
-    for p in ev.paths:
-        if p.end != "exit" or p.ret() == ("c", 0):
-            continue
-        evs = [e for e in p.events if e.kind != "branch"]
-        dec = [e for e in evs if e.kind == "call" and e.a == "mtbl_varint_decode32"]
-        r = p.ret()
-        base, off = APE.split_off(r)
-        if not dec:
-            seen_fast = True
-            # three single bytes in layout order
-            st = [(e.a, APE.vstr(e.b)) for e in evs if e.kind == "store" and e.a.startswith("*")]
-            want = [("*" + pn[2], "%s[#0]" % pn[0]), ("*" + pn[3], "%s[#1]" % pn[0]), ("*" + pn[4], "%s[#2]" % pn[0])]
-            got = [(a, re.sub(r"@\d+", "", v)) for a, v in st[:3]]
-            res.check(got == want and base == pn[0] and off == 3, rule, site(d, "fast-path"),
-                      "fast path: shared, non_shared, value_length are bytes 0,1,2; entry data starts at p+3",
-                      "fast path reads %s and continues at %s+%d" % (got, base, off), d.loc(d.body), p.describe(d))
-            # guarded by all three < 128
-            ok = False
-            for (a, b), v in p.cons.items():
-                if b == "#128" and v == frozenset((LT,)) and all(x in a for x in ("[#0]", "[#1]", "[#2]")) and "|" in a:
-                    ok = True
-            each = [v for (a, b), v in p.cons.items() if b == "#128" and v == frozenset((LT,))]
-            res.check(ok or len(each) >= 3, rule, site(d, "fast-path-guard"), "fast path only when all three values are below 128",
-                      "the single-byte fast path is taken without all three values being < 128", d.loc(d.body), p.describe(d))
-        else:
-            seen_slow = True
-            order = [canon(call_args(e.node)[1]) for e in dec]
-            chained = True
-            cur = ("s", pn[0])
-            for e in dec:
-                if e.b[0] != cur:
-                    chained = False
-                cur = ("s", "(%s+%s)" % (APE.vstr(cur), APE.vstr(e.c))) if True else cur
-            res.check(order == [pn[2], pn[3], pn[4]], rule, site(d, "slow-path"),
-                      "slow path decodes varint32 shared, non_shared, value_length in that order, each after the previous",
-                      "slow path decodes %s" % order, d.loc(d.body), p.describe(d))
-    if not (seen_fast and seen_slow):
-        raise BrokenAnalysis("decode_entry: fast/slow paths not both recognised")
-    f = prog.need("parse_next_key", BL)
-    res.saw(f)
-    ev = APE.run(prog, cg, f, bound=APE.BOUND)
-    n = 0
-    for p in ev.paths:
-        if p.ret() != ("c", 1) or p.end != "exit":
-            continue
-        n += 1
-        evs = [e for e in p.events if e.kind != "branch"]
-        de = [e for e in evs if e.kind == "call" and e.a == "decode_entry"]
-        if len(de) != 1:
-            res.bad(rule, site(f, "decode"), "parse_next_key does not decode exactly one entry header", f.loc(f.body))
-            continue
-        sh, nsv, vl = [APE.vstr(de[0].outs.get(i)) if de[0].outs.get(i) else None for i in (2, 3, 4)]
-        P = APE.vstr(de[0].c)
-        clip = [e for e in evs if e.kind == "call" and e.a == "ubuf_clip" and canon(call_args(e.node)[0]) == "bi->key"]
-        app = [e for e in evs if e.kind == "call" and e.a == "ubuf_append" and canon(call_args(e.node)[0]) == "bi->key"]
-        st = {re.sub(r"@\d+", "", e.a): APE.vstr(e.b) for e in evs if e.kind == "store" and e.a.startswith("bi->")}
-        good = len(clip) == 1 and APE.vstr(clip[0].b[1]) == sh and len(app) == 1 and APE.vstr(app[0].b[1]) == P and APE.vstr(app[0].b[2]) == nsv and \
-            evs.index(clip[0]) < evs.index(app[0]) and st.get("bi->val") == "(%s+%s)" % (P, nsv) and st.get("bi->val_len") == vl and \
-            st.get("bi->next") == "((%s+%s)+%s)" % (P, nsv, vl)
-        res.check(good, rule, site(f, "rebuild"),
-                  "key := previous key clipped to `shared` ++ non_shared bytes; value := next value_length bytes; next entry after them",
-                  "entry rebuilt as clip(%s) append(%s,%s), val=%s len=%s next=%s" % (
-                      APE.vstr(clip[0].b[1]) if clip else None, APE.vstr(app[0].b[1]) if app else None, APE.vstr(app[0].b[2]) if app else None,
-                      st.get("bi->val"), st.get("bi->val_len"), st.get("bi->next")), f.loc(f.body), p.describe(f))
-    if n == 0:
-        raise BrokenAnalysis("parse_next_key: no accepting path")
+    # decided on bytes: blocks laid out by an independent encoder of the format, read by the real iterator (rules/readrule.py)
+    from . import readrule
+    readrule.blocks(ctx, res, rule)
     # the reader takes `shared` from the file: nobody outside the builder reads its restart interval
     readers = set(g.name for g in prog.lib_funcs() for x in walk(g.body)
                   if x["k"] == "MemberExpr" and x.get("rec") == "block_builder" and x["field"] == "block_restart_interval")
